@@ -284,18 +284,19 @@ PROPS["C16"] = {
 }
 
 # ------------------------------------------------------------------------------------------------------------ C06
-_c06_quick = {(4, 6), (10, 15), (0, 3), (1, 2), (7, 9), (12, 5), (15, 15), (3, 0)}
+_c06_quick = {(4, 6), (10, 15), (0, 3), (1, 2), (7, 9), (12, 5), (15, 15), (3, 0), (1, 1), (5, 1), (2, 7)}
 PROPS["C06"] = {
     "files": ["src/crypto/init.rs", "src/crypto/common.rs"],
     "functions": ["InitState::select_algorithm", "InitState::algorithm_rank"],
     "bounds": "each side's list = one of the 16 ordered subsets of {aes128, aes256, chacha20} (all 256 pairs in the thorough tier, "
-              "8 in the quick tier), all six speeds symbolic over every finite non-negative f32 (ties, zero, huge values included), "
+              "11 in the quick tier, single-cipher shapes included), all six speeds symbolic over every finite non-negative f32 (ties, zero, huge values included), "
               "both allow-unencrypted flags symbolic; three selections per instance (A about B, B about A, A with reversed list about B)",
     "outside": "NaN speeds (excluded by the property); lists with a cipher named twice; Crypto::parse_algorithms (string handling); "
                "'altering the lists in transit makes the handshake fail' (needs the handshake parser, out of reach)",
     "assumptions": RING_ASSUME[3:] + ["ring::aead::Algorithm equality is identity of the three static algorithm objects (model: id compare)"],
     "obligations": [K("c06_sel_a%02d_b%02d" % (a, b), "selection symmetric / optimal / order independent for list shapes %d x %d" % (a, b),
-                      ("quick", "thorough") if (a, b) in _c06_quick else T, role="c06_select_symmetric")
+                      ("quick", "thorough") if (a, b) in _c06_quick else T, role="c06_select_symmetric",
+                      timeout={"quick": 900, "thorough": 1800}, mem_gb=16)
                     for a in range(16) for b in range(16)],
 }
 
